@@ -11,7 +11,7 @@ import (
 )
 
 func init() {
-	register(&Rule{ID: "TB-ERRWRAP", Floor: 7,
+	register(&Rule{ID: "TB-ERRWRAP", Floor: 4,
 		Doc: "handlers classify store errors with errors.Is against the sentinel errors of package types (and answer 4xx accordingly); hence wherever one of those sentinels is an argument of fmt.Errorf its verb is %w (any flags): formatted with another verb the sentinel becomes text, errors.Is fails and a client mistake is answered with a bare 500",
 		Run: func(c *core.Ctx) {
 			n := 0
